@@ -1,5 +1,7 @@
 package main
 
+import "math/rand"
+
 type PropSpec struct {
 	ID          string
 	Pkgs        []string
@@ -56,25 +58,43 @@ func init() {
 	})
 }
 
-// dataShapes enumerates (nFOpts, fpMode, nFRM) triples for data frames.
-func dataShapes(tier string, maxTotal int) [][]int {
+// dataShapes enumerates (nFOpts, fpMode, nFRM) triples for data frames: quick = boundary lengths plus 24 triples
+// drawn from the whole space with VERIF_SEED; thorough = every FOpts length 0..15 x every FRMPayload length 0..242.
+func dataShapes(tier string, maxTotal int) [][]int { return dataShapesSeed(tier, maxTotal, 0) }
+
+func dataShapesSeed(tier string, maxTotal int, seed int64) [][]int {
 	var out [][]int
+	seen := map[[3]int]bool{}
+	add := func(nfo, mode, nfr int) {
+		if mode == 0 && nfr != 0 {
+			return
+		}
+		if mode == 1 && nfo != 0 {
+			return
+		}
+		if 1+7+nfo+1+nfr > maxTotal {
+			return
+		}
+		k := [3]int{nfo, mode, nfr}
+		if seen[k] {
+			return
+		}
+		seen[k] = true
+		out = append(out, []int{nfo, mode, nfr})
+	}
 	fo := pick(tier, []int{0, 1, 15}, rng(0, 15))
-	fr := pick(tier, []int{0, 1, 15, 16, 17, 33, 222, 242}, []int{0, 1, 2, 15, 16, 17, 31, 32, 33, 64, 128, 222, 230, 233, 242})
+	fr := pick(tier, []int{0, 1, 15, 16, 17, 33, 222, 242}, rng(0, 242))
 	for _, nfo := range fo {
 		for mode := 0; mode <= 2; mode++ {
 			for _, nfr := range fr {
-				if mode == 0 && nfr != 0 {
-					continue
-				}
-				if mode == 1 && nfo != 0 {
-					continue
-				}
-				if 1+7+nfo+1+nfr > maxTotal {
-					continue
-				}
-				out = append(out, []int{nfo, mode, nfr})
+				add(nfo, mode, nfr)
 			}
+		}
+	}
+	if tier != "thorough" {
+		r := rand.New(rand.NewSource(seed))
+		for i := 0; i < 24; i++ {
+			add(r.Intn(16), 2, r.Intn(243))
 		}
 	}
 	return out
@@ -87,7 +107,7 @@ func init() {
 		Items: func(tier string, seed int64) []Item {
 			var it []Item
 			for ver := 0; ver <= 1; ver++ {
-				for _, s := range dataShapes(tier, 255) {
+				for _, s := range dataShapesSeed(tier, 255, seed) {
 					it = append(it, Item{PkgKey: "root", Func: "VerifC02_Uplink", Shape: append([]int{ver}, s...)})
 					it = append(it, Item{PkgKey: "root", Func: "VerifC02_Downlink", Shape: append([]int{ver}, s...)})
 				}
@@ -109,7 +129,7 @@ func init() {
 		}
 		for mt := 0; mt < 4; mt++ {
 			for mode := 0; mode <= 2; mode++ {
-				for _, n := range pick(tier, []int{0, 1, 16, 17, 33}, []int{0, 1, 2, 15, 16, 17, 31, 32, 33, 64, 242}) {
+				for _, n := range pick(tier, []int{0, 1, 16, 17, 33}, rng(0, 242)) {
 					if mode == 0 && n != 0 {
 						continue
 					}
@@ -150,7 +170,7 @@ func init() {
 		Pkgs: []string{"root"},
 		Items: func(tier string, seed int64) []Item {
 			var it []Item
-			for _, l := range pick(tier, rng(0, 40), append(rng(0, 64), 100, 128, 200, 255, 256)) {
+			for _, l := range pick(tier, rng(0, 40), rng(0, 256)) {
 				it = append(it, Item{PkgKey: "root", Func: "VerifC08_Canonical", Shape: []int{l}})
 			}
 			return it
@@ -164,7 +184,7 @@ func init() {
 		Items: func(tier string, seed int64) []Item {
 			var it []Item
 			for mt := 0; mt < 4; mt++ {
-				for _, s := range dataShapes(tier, 300) {
+				for _, s := range dataShapesSeed(tier, 300, seed) {
 					it = append(it, Item{PkgKey: "root", Func: "VerifC01_Data", Shape: append([]int{mt}, s...)})
 				}
 			}
@@ -245,7 +265,7 @@ func init() {
 	p.Items = func(tier string, seed int64) []Item {
 		it := old(tier, seed)
 		for up := 0; up <= 1; up++ {
-			for _, l := range pick(tier, rng(0, 4), rng(0, 6)) {
+			for _, l := range pick(tier, rng(0, 4), rng(0, 7)) {
 				it = append(it, Item{PkgKey: "root", Func: "VerifC07_Stream", Shape: []int{up, l}})
 			}
 			set := macDown
@@ -619,7 +639,7 @@ func init() {
 		Pkgs: []string{"root", "clocksync", "multicastsetup", "fragmentation", "firmwaremanagement", "backend"},
 		Items: func(tier string, seed int64) []Item {
 			var it []Item
-			for _, l := range pick(tier, rng(0, 24), append(rng(0, 48), 64)) {
+			for _, l := range pick(tier, rng(0, 24), append(rng(0, 64), 96, 128, 255, 256)) {
 				it = append(it, Item{PkgKey: "root", Func: "VerifC09_Frame", Shape: []int{l, pick(tier, []int{2}, []int{3})[0]}})
 			}
 			for _, l := range pick(tier, []int{0, 4, 8, 12}, []int{0, 1, 2, 3, 4, 8, 12, 16, 20}) {
